@@ -14,6 +14,11 @@ fn main() {
         args.drain(0..2);
     }
     let mut ctx = rink_core::simple_context().expect("context");
+    // --ans: enable the `ans` feature (save_previous_result)
+    if !args.is_empty() && args[0] == "--ans" {
+        ctx.save_previous_result = true;
+        args.remove(0);
+    }
     // --defs "<definitions text>": extra user definitions loaded on top of the bundled database
     while args.len() >= 2 && args[0] == "--defs" {
         let r = ctx.load_definitions(&args[1]);
@@ -23,6 +28,11 @@ fn main() {
     let mut bad = false;
     let mut last = String::new();
     for line in &args {
+        // `:ans on` / `:ans off` toggle the feature in the middle of a history
+        if line == ":ans on" || line == ":ans off" {
+            ctx.save_previous_result = line == ":ans on";
+            continue;
+        }
         let r = catch_unwind(AssertUnwindSafe(|| {
             let res = rink_core::eval(&mut ctx, line);
             let mut text = match &res {
